@@ -124,3 +124,133 @@ func OracleC23(c Case, obs []StepObs) []Finding {
 	})
 	return out
 }
+
+func exitClass(e Event) string {
+	switch e.Kind {
+	case "hp":
+		return "hold-timer-expiry"
+	case "ka":
+		return "keepalive-send-failure"
+	case "e":
+		return fmt.Sprintf("admin-event-%d", e.Code)
+	case "m":
+		switch e.M.Kind {
+		case 'N':
+			if (Msg{Kind: 'N', Code: e.M.Code, Sub: e.M.Sub}).validNotification() {
+				return "notification-received"
+			}
+			return "malformed-message"
+		case 'H', 'B', 'T':
+			return "malformed-message"
+		case 'O':
+			return "unexpected-or-invalid-open"
+		}
+		return "message-" + string(e.M.Kind)
+	}
+	return "event-" + e.Kind
+}
+
+// validNotification mirrors RFC 4271/4486 code tables (what a decoder must accept).
+func (m Msg) validNotification() bool {
+	c, s := m.Code, m.Sub
+	switch c {
+	case 1:
+		return s >= 1 && s <= 3
+	case 2:
+		return s >= 1 && s <= 6 && s != 5
+	case 3:
+		return s >= 1 && s <= 11 && s != 7
+	case 4, 5:
+		return s == 0
+	case 6:
+		return s <= 8
+	}
+	return false
+}
+
+// OracleC07: whenever a session is not Established nothing of it is left in the Loc-RIB, its
+// Adj-RIB-Out is unregistered, the ASN/cluster-id contributions are exactly those of the attached
+// sessions, other sessions are untouched, and a re-establishment starts empty.
+func OracleC07(c Case, obs []StepObs) []Finding {
+	var out []Finding
+	add := func(sig, d string) { out = append(out, Finding{sig, d}) }
+	walk(c, obs, func(i int, e Event, prev byte, prevAtt bool, o StepObs, po *StepObs) {
+		if o.Panic != "" || o.Wedged != "" {
+			return
+		}
+		where := fmt.Sprintf("step %d (%s): %s -> %s", i, e, stateName(prev), stateName(o.State))
+		mine := fmt.Sprintf("%d:", e.Sid)
+		own := 0
+		for _, l := range o.Loc {
+			if strings.HasPrefix(l, mine) {
+				own++
+			}
+		}
+		cls := exitClass(e)
+		if o.State != 'E' {
+			if own > 0 {
+				add("routes-left-in-loc-rib-after-"+cls+"-imp-"+string(c.Sess[e.Sid].Imp), where+" Loc-RIB="+strings.Join(o.Loc, ","))
+			}
+			if len(o.AdjIn) > 0 {
+				add("adj-rib-in-not-emptied-after-"+cls, where)
+			}
+		}
+		if prev != 'E' && o.State == 'E' && (own > 0 || len(o.AdjIn) > 0) {
+			add("re-established-with-stale-routes", where+" Loc-RIB="+strings.Join(o.Loc, ","))
+		}
+		// accounting over all sessions, read from o.All (state letter + attached flag per session)
+		att4, att6, attAny := 0, 0, 0
+		for k := range c.Sess {
+			if 2*k+1 < len(o.All) && o.All[2*k] == 'E' {
+				attAny++
+				if c.Sess[k].V4 {
+					att4++
+				}
+				if c.Sess[k].V6 {
+					att6++
+				}
+				if c.Sess[k].RR && k < len(o.CIDRef) && o.CIDRef[k] != '1' {
+					add("cluster-id-contribution-missing-while-established", where)
+				}
+			} else if c.Sess[k].RR && k < len(o.CIDRef) && o.CIDRef[k] == '1' {
+				// another established RR session may legitimately hold the same cluster id
+				shared := false
+				for k2 := range c.Sess {
+					if k2 != k && c.Sess[k2].RR && clusterOf(c.Sess[k2]) == clusterOf(c.Sess[k]) && 2*k2 < len(o.All) && o.All[2*k2] == 'E' {
+						shared = true
+					}
+				}
+				if !shared {
+					add("cluster-id-contribution-left-after-"+cls, where)
+				}
+			}
+		}
+		if attAny == 0 && o.ASNRef {
+			add("asn-contribution-left-after-"+cls, where)
+		}
+		if attAny > 0 && !o.ASNRef {
+			add("asn-contribution-of-another-session-released-after-"+cls, where)
+		}
+		if int(o.Clients4) != att4 || int(o.Clients6) != att6 {
+			add("adj-rib-out-registration-wrong-after-"+cls, where+fmt.Sprintf(" registered=%d.%d established=%d.%d", o.Clients4, o.Clients6, att4, att6))
+		}
+		// other sessions' routes are untouched by this session's step
+		if po != nil {
+			var before, after []string
+			for _, l := range po.Loc {
+				if !strings.HasPrefix(l, mine) {
+					before = append(before, l)
+				}
+			}
+			for _, l := range o.Loc {
+				if !strings.HasPrefix(l, mine) {
+					after = append(after, l)
+				}
+			}
+			if strings.Join(before, ",") != strings.Join(after, ",") {
+				add("other-sessions-routes-changed-by-"+cls, where+" before="+strings.Join(before, ",")+" after="+strings.Join(after, ","))
+			}
+		}
+	})
+	return out
+}
